@@ -37,6 +37,13 @@ def gen_knobs(rng, prop, profile):
         wchoice(rng, [(70, rng.randint(3, 5)), (30, rng.randint(6, 9))])
     nres = rng.randint(max(1, K - 3), K)
     res_names = ["r%d" % i for i in range(nres)]
+    if rng.random() < 0.15:
+        # unusual but legal object names (query strings, ports-like colons, nested paths, spaces, '=' and ';')
+        odd = ["r0?x=1&y=2", "a/b/r%d", "r%d v2", "k=v;r%d", "r%d:8080", "r\u00e9sum\u00e9%d"]
+        for i in range(nres):
+            if rng.random() < 0.4:
+                t = rng.choice(odd)
+                res_names[i] = (t % i) if "%d" in t else t + str(i)
     res_sizes = {}
     huge = rng.random() < 0.06
     for r in res_names:
@@ -51,6 +58,8 @@ def gen_knobs(rng, prop, profile):
             res = res_names[i] if i < nres else rng.choice(res_names)
             comment = "" if i < nres else "c%d" % rng.randint(1, 3)
             scheme = wchoice(rng, scheme_w)
+            if scheme == "file" and "/" in res:
+                scheme = "sim"
             if (scheme, res, comment) not in used:
                 break
         else:
@@ -105,6 +114,7 @@ def gen_knobs(rng, prop, profile):
         "bufsize": wchoice(rng, [(70, 8192), (15, 4096), (15, 65536)]),
         "evict_on_startup": rng.random() < 0.15,
         "val_style": wchoice(rng, [(60, "bool"), (20, "numpy"), (20, "int")]),
+        "ret_style": wchoice(rng, [(75, "true"), (25, "none")]),
         "cache_dir": wchoice(rng, [(70, "cache"), (6, "products[v2]/cache"), (5, "my cache dir"), (5, "c*che?"),
                                    (5, "data.d/cachefile_x_cachefile"), (5, "d\u00e9p\u00f4t/cache"), (4, "a/b/c/cache")]),
         "big_requests": big,
@@ -134,6 +144,9 @@ def gen_ops(rng, prop, knobs, profile):
                 m = wchoice(rng, [(40, 1), (30, 2), (20, 3), (10, rng.randint(1, min(5, K)))])
             m = min(m, K)
             op["keys"] = rng.sample(range(K), m)
+            if rng.random() < 0.01:
+                op["keys"] = []  # an empty request
+                m = 0
             if not c19 and m >= 2 and rng.random() < (0.15 if m >= 6 else 0.04):
                 # the same uri twice in one request (in a big request: in different pool chunks)
                 op["keys"][-1] = op["keys"][rng.randrange(0, min(5, m - 1))]
@@ -202,8 +215,10 @@ def fault_kinds_for(kd):
 
 def gen_faults(rng, knobs, ops):
     keys = knobs["keys"]
-    gets = [i for i, o in enumerate(ops) if o["op"] == "GET"]
+    gets = [i for i, o in enumerate(ops) if o["op"] == "GET" and o["keys"]]
     faults = []
+    if not gets:
+        return faults
     nf = wchoice(rng, [(10, 0), (45, 1), (30, 2), (15, 3)])
     extra_ops = []
     for _ in range(nf):
@@ -255,8 +270,8 @@ def make_fault(rng, op_id, kind, key):
 
 
 def gen_crash(rng, knobs, ops):
-    gets = [o for o in ops if o["op"] == "GET"]
-    cand = gets if rng.random() < 0.85 else ops
+    gets = [o for o in ops if o["op"] == "GET" and o["keys"]]
+    cand = gets if (gets and rng.random() < 0.85) else ops
     op = rng.choice(cand)
     nkeys = len(op.get("keys", [1]))
     at = wchoice(rng, [(50, rng.randint(0, 6 * nkeys)), (30, rng.randint(0, 3)), (20, rng.randint(0, 25 * nkeys))])
